@@ -64,6 +64,8 @@ def key_of(r):
             return "numct.divvartime-negative-capacity"
         if a == "w.bin.panic" and "slice bounds" in r.get("panic", ""):
             return "numct.divvartime-negative-capacity"
+        if a in ("m.sqrt.panic", "U.sqrt.panic") and r.get("m") == 2:
+            return "numct.modsqrt-modulus-2-panics"
         if a == "i.negzero":
             return "numct.int-negative-zero-compare"
         if a == "i.edivvt" and T(r["x"], r["cx"]) < 0 and abs(T(r["x"], r["cx"])) < abs(T(r["y"], r["cy"])):
